@@ -625,7 +625,69 @@ def _holds(pc, sub):
 
 
 # ---------------------------------------------------------------------------
+# C02 reverse direction: every legal non-hint non-reserved halfword of form m is produced by the real encoder
+
+def obligations_reverse(ctx, h, m):
+    fn = h.encoder_func_name(m)
+    ctx.under_contract(fn)
+    tag = 'asm.%s[%s]' % (fn, m)
+    names = list(rvc.roles(m))
+    kinds = operand_kinds(m)
+    holder = {}
+
+    def body(run):
+        hw = z3.BitVec('h', 64)
+        holder['h'] = hw
+        run.assume(z3.Extract(63, 16, hw) == 0)
+        run.assume(rvc.fixed_match(BV, m, hw))
+        rb = {r: rvc.field_value(BV, m, hw, r) for r in names}
+        for k in rvc.T[m]['cons']:
+            run.assume(k(BV, rb))
+        args = []
+        for nm, k in zip(names, kinds):
+            v = I.Sym('int', rb[nm], 12)
+            args.append(RegOperand(nm, z3.BoolVal(True), v) if k == 'reg' else v)
+        it = h.interp(run)
+        return h.call_encoder(it, m, args)
+    paths = I.explore(body, I.BVDom)
+    hw = holder['h']
+    n_ret = 0
+    for i, p in enumerate(paths):
+        rp = ('reverse', {'m': m})
+        if p.kind != 'return':
+            ctx.add(Obligation('%s/reverse/legal-halfword-refused#%d(%s)' % (tag, i, p.exc_name), list(p.pc), z3.BoolVal(False),
+                               'BV', func='asm.' + fn, kind='post', cover=False, meta={'replay': rp}))
+            continue
+        n_ret += 1
+        r = p.value
+        t = r.t if isinstance(r, I.Sym) else z3.BitVecVal(r, 64)
+        ctx.add(Obligation('%s/reverse#%d' % (tag, i), list(p.pc), t == hw, 'BV', func='asm.' + fn, kind='post',
+                           meta={'replay': rp}))
+    if n_ret == 0:
+        ctx.errors.append('%s: reverse direction has no returning path' % tag)
+
+
+def replay_reverse_data(ctx, d, model):
+    from pyvc.real import real
+    m = d['m']
+    hw = int(model.get('h', 0)) & 0xffff
+    cl = rvc.classify(hw)
+    if not (isinstance(cl, tuple) and cl[0] == m):
+        return {'confirmed': False, 'key': '%s:reverse' % m, 'what': 'model halfword 0x%04x classifies as %r' % (hw, cl)}
+    obs = _real_encode(real(), m, list(cl[1]))
+    bad = obs.get('ok') != hw
+    return {'confirmed': bad, 'key': '%s:legal-halfword-not-produced' % m,
+            'what': 'legal halfword 0x%04x = %s%r is not produced by assembling its canonical operands: %r' % (hw, m, cl[1], obs),
+            'input': {'m': m, 'args': list(cl[1]), 'halfword': hw}, 'observed': obs}
+
+
+# ---------------------------------------------------------------------------
 # worker-process entry points (driver.Ctx.task)
+
+def task_reverse(ctx, m):
+    h = Harness(ctx)
+    obligations_reverse(ctx, h, m)
+
 
 def task_encoder(ctx, m, parts=('legal', 'decode', 'inj'), crosscheck=True):
     h = Harness(ctx)
